@@ -38,7 +38,7 @@ def check_result_time(ctx, N, label, expected_of, offset_of=None, result_of=None
             if res is None or res[0] != 's' or res[1] != TIME:
                 continue
             nv = res[2][0]
-            if nv[0] == 'i' and exp is not None and D.aff_congruent(D.aff_of(nv[1]), exp, NPD):
+            if nv[0] == 'i' and exp is not None and D.aff_equiv(D.aff_of(nv[1]), exp, NPD):
                 ok_aff += 1
             else:
                 got = D.aff_of(nv[1]) if nv[0] == 'i' else None
